@@ -186,6 +186,7 @@ class Interp:
         self._prefix = []
         self._ndec = 0
         self._known = {}
+        self._eqconst = {}
         self.depth = 0
         self.sym_loop_limit = 3
         self.inline_filter = None   # optional predicate(name) -> bool: interpret body?
@@ -204,6 +205,7 @@ class Interp:
             self._prefix = prefix
             self._ndec = 0
             self._known = {}
+            self._eqconst = {}
             self.path = Path()
             self.globals = {}
             self.depth = 0
@@ -236,6 +238,7 @@ class Interp:
                 return cond != 0.0
             return bool(cond)
         # a condition already decided on this path keeps its outcome (unknowns are immutable symbols)
+        cond = norm_cond(cond)
         known = self._known
         if cond in known:
             return known[cond]
@@ -243,6 +246,17 @@ class Interp:
             return not known[cond.args[0]]
         if cond.op == '!=' and cond.args[1] == 0 and cond.args[0] in known:
             return known[cond.args[0]]
+        # equality with distinct constants is exclusive: (X == c) decided true fixes X on this path
+        eqc = None
+        if cond.op in ('==', '!=') and len(cond.args) == 2:
+            a, b = cond.args
+            if is_sym(a) and isinstance(b, int) and not isinstance(b, bool):
+                eqc = (a, b)
+            elif is_sym(b) and isinstance(a, int):
+                eqc = (b, a)
+            if eqc is not None and eqc[0] in self._eqconst:
+                same = self._eqconst[eqc[0]] == eqc[1]
+                return same if cond.op == '==' else not same
         i = self._ndec
         self._ndec += 1
         loc = astdb.loc_str(node) if node is not None else '?'
@@ -250,9 +264,13 @@ class Interp:
             t = self._prefix[i]
             self.path.decisions.append((cond, t, loc, False))
             known[cond] = t
+            if eqc is not None and t == (cond.op == '=='):
+                self._eqconst[eqc[0]] = eqc[1]
             return t
         self.path.decisions.append((cond, True, loc, True))
         known[cond] = True
+        if eqc is not None and cond.op == '==':
+            self._eqconst[eqc[0]] = eqc[1]
         return True
 
     def event(self, name, args, node=None):
@@ -1291,12 +1309,26 @@ def strip_casts(v):
     return v
 
 
+_CMP = ('==', '!=', '<', '>', '<=', '>=', '!')
+
+
+def _boolish(x):
+    """x is 0/1 valued: a comparison, a logical not, or a cast / (!= 0) wrapper around one"""
+    if not is_sym(x):
+        return False
+    if x.op in _CMP:
+        return True
+    if x.op == 'cast':
+        return _boolish(x.args[0])
+    return False
+
+
 def norm_cond(c):
-    """strip boolean wrappers: (x != 0) of a comparison, casts to bool"""
+    """strip truth-preserving wrappers: casts of 0/1 values and (x != 0) of 0/1 values"""
     while is_sym(c):
-        if c.op == 'cast':
+        if c.op == 'cast' and _boolish(c.args[0]):
             c = c.args[0]
-        elif c.op == '!=' and c.args[1] == 0 and is_sym(c.args[0]) and c.args[0].op in ('==', '!=', '<', '>', '<=', '>=', '!'):
+        elif c.op == '!=' and len(c.args) == 2 and c.args[1] == 0 and _boolish(c.args[0]):
             c = c.args[0]
         else:
             break
